@@ -1,7 +1,7 @@
 #!/venv/bin/python
 """usage: tools_recordseed.py <seed id> <tools_seed.sh output file> [note] -- writes meta.json 'confirmed' from a tools_seed.sh run."""
 import json, re, sys
-sid, out = sys.argv[1], open(sys.argv[2]).read()
+sid, out = sys.argv[1], open(sys.argv[2], errors="replace").read()
 note = sys.argv[3] if len(sys.argv) > 3 else ''
 p = f'/verif/seeded/{sid}/meta.json'
 m = json.load(open(p))
